@@ -62,6 +62,11 @@ MonitorSpec == TraceInit /\ [][MStep]_<<vars, l>>
 \* a lookup outside any creation of the name returns only published instances
 M_NoHalfBuilt ==
   [][(E.op = "get" /\ ~InOpen(E.n) /\ E.res # None) => E.res = L1[E.n]]_<<vars, l>>
+\* a lookup whose early-reference factory FAILED obtained nothing and changes nothing: the factory stays, so that the one early
+\* reference of this creation can still be produced for the next lookup (otherwise later lookups see "nothing there" for a name
+\* that is in creation, and the factory starts a second, nested creation of the singleton)
+M_FailedLookupChangesNothing ==
+  [][(E.op = "get" /\ E.err) => (L1' = L1 /\ L2' = L2 /\ L3' = L3 /\ inCr' = inCr)]_<<vars, l>>
 M_PublishedStable ==
   [][\A n \in Names : (L1[n] # None /\ E.op \notin {"remove", "hist"}) => L1'[n] = L1[n]]_<<vars, l>>
 
